@@ -4,6 +4,7 @@ C06 — only directly verified contacts enter the table; good ones are never evi
 import DhtVerif.Model.Table
 import DhtVerif.Props.C05
 import DhtVerif.Lemmas.C06
+import DhtVerif.Props.SourceTrees
 namespace Dht
 
 /-- The events through which (id, addr) may enter: a query or a matched
@@ -275,5 +276,17 @@ example : (({} : TblState).step Demo.secCfg (.recvQuery Demo.secAddr (some Demo.
     (({} : TblState).step Demo.secCfg (.recvQuery Demo.secAddr (some (Demo.idx 4)) false none)).map (·.2)
       = some (.unchanged "node is bad") := by
   constructor <;> decide +kernel
+
+/-- T1: both liveness windows of `IsGood` are the 15 minutes of BEP 5 (the model's `window` is this regenerated constant). -/
+theorem C06.good_window_is_15_minutes :
+    Gen.goodWindowsNs = [15 * 60 * 1000000000, 15 * 60 * 1000000000] ∧
+    ({ root := [] } : TableCfg).window = 15 * 60 * 1000000000 ∧ ({ root := [] } : TableCfg).k = 8 := by
+  decide
+
+/-- T1 by translation: `Server.nodeErr` and `Server.IsGood` are the model's `isBad` and `isGood`. -/
+theorem C06.bad_and_good_are_the_source (c : TableCfg) (now : Nat) (n : Node) :
+    DExp.evalWith (nodeErrCond c n) nodeErrRet Gen.treeNodeErr = some (isBad c n) ∧
+    DExp.evalWith (isGoodCond c n) (isGoodRet c now n) Gen.treeIsGood = some (isGood c now n) :=
+  ⟨SourceTrees.nodeErr c n, SourceTrees.isGood c now n⟩
 
 end Dht
